@@ -72,14 +72,17 @@ func (c *fRegistryImpl) Register(ctx FContext, resultC chan []byte) error {
 	// FContext's have a monotonically increasing atomic uint64. We check
 	// the channels map to ensure that request is not still in-flight.
 	opID, err := getOpID(ctx)
+	if err != nil {
+		// Without a well-formed op id no response can be routed to resultC and
+		// Unregister could not remove the entry again.
+		return err
+	}
 
 	c.mu.Lock()
 	defer c.mu.Unlock()
-	if err == nil {
-		_, ok := c.channels[opID]
-		if ok {
-			return fmt.Errorf("frugal: context already registered, opid %d is in-flight for another request", opID)
-		}
+	_, ok := c.channels[opID]
+	if ok {
+		return fmt.Errorf("frugal: context already registered, opid %d is in-flight for another request", opID)
 	}
 	c.channels[opID] = resultC
 	return nil
